@@ -784,6 +784,9 @@ class CoreMixin:
         return sch.type_of(path)
 
     def class_attr(self, ci: ClassInfo, name, st, fr, site, via_class=None, inst=None) -> Node:
+        if name == "_fields" and any(b.split(".")[-1] == "NamedTuple" for b in self.ext_bases(ci)):
+            # typing.NamedTuple: the field names in declaration order
+            return self.const(tuple(k for k, s_ in ci.assigns.items() if isinstance(s_, ast.AnnAssign)), site)
         for c in self.mro(ci):
             if name in c.methods:
                 fi = c.methods[name]
